@@ -1,6 +1,7 @@
 package main
 
 import (
+	"strconv"
 	"encoding/json"
 	"flag"
 	"fmt"
@@ -56,6 +57,7 @@ func main() {
 	flag.IntVar(&cfg.MaxTicks, "ticks", 8, "ticker fires per path (horizon)")
 	flag.IntVar(&cfg.MakeCut, "makecut", 16, "continue symbolic make only up to this length")
 	flag.IntVar(&cfg.Delays, "delays", 0, "scheduler delay bound D")
+	flag.BoolVar(&cfg.AnyOnly, "anyonly", false, "spend the delay budget only on resuming threads parked with verifPauseAny")
 	flag.BoolVar(&cfg.TimerPreempt, "timerpreempt", false, "a pending timer may fire at any scheduling point (charged to the delay bound)")
 	flag.BoolVar(&cfg.Race, "race", false, "happens-before race detection")
 	flag.StringVar(&cfg.Solver, "solver", "z3", "z3 | z3-new | cvc5")
@@ -68,6 +70,9 @@ func main() {
 	required := flag.String("require-reach", "", "comma-separated reach markers that must be hit on some path")
 	cpuprof := flag.String("cpuprofile", "", "write cpu profile")
 	flag.Parse()
+	if w, err := strconv.Atoi(os.Getenv("SYMGO_WORKERS")); err == nil && w > 0 {
+		cfg.Workers = w // lets two batches share the machine
+	}
 	if *cpuprof != "" {
 		f, _ := os.Create(*cpuprof)
 		pprof.StartCPUProfile(f)
